@@ -118,7 +118,9 @@ func (st *State) DecryptWords(xl, xr uint32) (uint32, uint32) {
 func be32(b []byte) uint32 {
 	return uint32(b[0])<<24 | uint32(b[1])<<16 | uint32(b[2])<<8 | uint32(b[3])
 }
-func put32(b []byte, v uint32) { b[0], b[1], b[2], b[3] = byte(v>>24), byte(v>>16), byte(v>>8), byte(v) }
+func put32(b []byte, v uint32) {
+	b[0], b[1], b[2], b[3] = byte(v>>24), byte(v>>16), byte(v>>8), byte(v)
+}
 
 // Encrypt encrypts one 8-byte block (big-endian halves) and returns it.
 func (st *State) Encrypt(in []byte) []byte {
